@@ -22,8 +22,10 @@ FIELDS = {'IN': IN_F, 'OUT': OUT_F, 'INTRA': X_F}
 MAND = {'IN': ['timestamp', 'asset', 'exchange', 'holder', 'transaction_type', 'spot_price', 'crypto_in'],
         'OUT': ['timestamp', 'asset', 'exchange', 'holder', 'transaction_type', 'spot_price', 'crypto_out_no_fee', 'crypto_fee'],
         'INTRA': ['timestamp', 'asset', 'from_exchange', 'from_holder', 'to_exchange', 'to_holder', 'spot_price', 'crypto_sent', 'crypto_received']}
-ALWAYS = {'IN': ['timestamp', 'asset', 'exchange', 'holder', 'transaction_type'], 'OUT': ['timestamp', 'asset', 'exchange', 'holder', 'transaction_type'],
-          'INTRA': ['timestamp', 'asset', 'from_exchange', 'from_holder', 'to_exchange', 'to_holder']}
+# fields whose cell is never empty (the first column of a table must hold one of them); the numeric ones may hold 0
+ALWAYS = {'IN': ['timestamp', 'asset', 'exchange', 'holder', 'transaction_type', 'spot_price', 'crypto_in'],
+          'OUT': ['timestamp', 'asset', 'exchange', 'holder', 'transaction_type', 'spot_price', 'crypto_out_no_fee', 'crypto_fee'],
+          'INTRA': ['timestamp', 'asset', 'from_exchange', 'from_holder', 'to_exchange', 'to_holder', 'crypto_sent', 'crypto_received']}
 EXS = ['Coinbase', 'Kraken']
 HOS = ['Bob', 'Alice']
 SEC = {'IN': 'in_header', 'OUT': 'out_header', 'INTRA': 'intra_header'}
@@ -99,7 +101,7 @@ def gen(rng, prop=None):
         recs['OUT'].append(r)
     for i in range(rng.randint(0, 3)):
         s = rnum(rng)
-        f = rng.choice([0.0, s * 0.01])
+        f = rng.choice([0.0, s * 0.01, s])          # s: the whole transfer is eaten by the fee (0 received)
         r = dict(timestamp=ts(i), asset='B1', from_exchange='Coinbase', from_holder='Bob', to_exchange='Kraken', to_holder=rng.choice(HOS),
                  spot_price=rnum(rng) if (f > 0 or rng.random() < 0.5) else None, crypto_sent=s, crypto_received=s - f)
         recs['INTRA'].append(r)
@@ -368,6 +370,10 @@ def oracle_c11(case, res, guard=True):
             return f"IN row {rowid[('IN', k)]}: fiat_in_no_fee {t.fiat_in_no_fee} vs cell {r['fiat_in_no_fee']!r}"
         if r.get('fiat_in_with_fee') is not None and Decimal(t.fiat_in_with_fee) != q11(r['fiat_in_with_fee']):
             return f"IN row {rowid[('IN', k)]}: fiat_in_with_fee {t.fiat_in_with_fee} vs cell {r['fiat_in_with_fee']!r}"
+        if r.get('fiat_in_with_fee') is None:
+            want = F(t.fiat_in_no_fee) + F(t.fiat_fee)
+            if abs(F(t.fiat_in_with_fee) - want) > abs(want) * F(1, 10**28):
+                return f"IN row {rowid[('IN', k)]}: empty fiat_in_with_fee cell but value {t.fiat_in_with_fee} is not fiat_in_no_fee + fiat_fee = {float(want)}"
         if r.get('fiat_in_no_fee') is None and abs(F(t.fiat_in_no_fee) - F(q11(r['crypto_in'])) * F(q11(r['spot_price']))) > F(t.fiat_in_no_fee) * F(1, 10**28):
             return f"IN row {rowid[('IN', k)]}: empty fiat_in_no_fee cell but value {t.fiat_in_no_fee} is not crypto_in x spot_price"
         if t.unique_id != (r.get('unique_id') or '') or t.notes.split('; This transaction has a crypto fee')[0].split('This transaction has a crypto fee')[0] != (r.get('notes') or ''):
@@ -399,7 +405,13 @@ def oracle_c12(case, res, guard=True):
     return None
 
 
-ORACLES = {"C11": oracle_c11, "C12": oracle_c12}
+def oracle_c04(case, res, guard=True):
+    """exchange-supplied fiat values are used in place of amount x spot price (through the parser, incl. crypto-fee acquisitions)"""
+    v = oracle_c11(case, res, guard)
+    return v if v and ("fiat" in v) else None
+
+
+ORACLES = {"C11": oracle_c11, "C12": oracle_c12, "C04": oracle_c04}
 
 
 def shrink_candidates(case):
